@@ -141,7 +141,7 @@ pub fn c12(ctx: &mut Ctx) {
     ctx.rule = "elements carrying 1-6 (key, value) pairs drawn from the full value strategy (all nine types, lengths {0,1,7,8,14,15,16,17,31,32,33,40} U 0..40 U occasionally 200-5000, ASCII / 2- / 3- / 4-byte UTF-8 and embedded NUL, extreme integers, floats by bit pattern incl. NaN payloads, signed zeros, subnormals) used both as key and as value, stored on DbMemory, Db and DbFile; read back (all values and by each key) directly, after drop+reopen with the same and the other file variant, and after backup+reload of the memory variant; compared bit for bit. Thorough adds the exhaustive grid length 0..40 x {ASCII, 2-, 3-, 4-byte fill} for strings and 0..40 for bytes. evaluations = pairs checked. Non-trivial: key or value has byte length 14..17 or 0, or is a NaN / -0.0 / subnormal float, or an empty vector. Distinct = hash of the pair.".into();
     let cases = ctx.tier.pick(20_000, 200_000);
     replay_saved::<ValueCase, _>(ctx, "c12-values", c12_case);
-    if ctx.tier == Tier::Thorough {
+    if ctx.tier == Tier::Thorough && ctx.runs_once_here() {
         // exhaustive length grid
         let mut grid = vec![];
         for len in 0..=40usize {
@@ -539,6 +539,7 @@ pub fn c05(ctx: &mut Ctx) {
         p.w_insert_index = 5;
         p.w_reads = 2;
         p.invalid_pct = 5;
+        p.grow_shrink_pct = 25;
         let maint = || {
             prop::collection::vec(
                 prop::sample::select(vec![Maint::ReopenSame, Maint::ReopenOther, Maint::Optimize, Maint::Shrink, Maint::BackupOpen, Maint::Copy, Maint::Rename]),
@@ -707,6 +708,7 @@ pub fn c06(ctx: &mut Ctx) {
         let mut p = Profile::general();
         p.w_tx = 5;
         p.w_insert_index = 4;
+        p.grow_shrink_pct = 8;
         vgen::history(&p, lo, hi)
     };
     replay_saved::<Vec<Step>, _>(ctx, "c06-differential", c06_case);
